@@ -210,6 +210,8 @@ pub enum IbcSudo {
 }
 
 /// Canonical text of a payout / refund sub-message: `to/amount/denom/gas/replyid`.
+/// The numeric reply id is deliberately not rendered: it is private to the contract (cw-multi-test routes the reply
+/// by the id the code itself chose), so renumbering the ids is a harmless change.
 fn render_sub(m: &SubMsg) -> String {
     use cosmwasm_std::{CosmosMsg, WasmMsg};
     let gas = opt_str(&m.gas_limit);
@@ -219,12 +221,12 @@ fn render_sub(m: &SubMsg) -> String {
     };
     match &m.msg {
         CosmosMsg::Bank(BankMsg::Send { to_address, amount }) if amount.len() == 1 => {
-            format!("{}/{}/{}/{}/{}{}", to_address, amount[0].amount, amount[0].denom, gas, m.id, on)
+            format!("{}/{}/{}/{}{}", to_address, amount[0].amount, amount[0].denom, gas, on)
         }
         CosmosMsg::Wasm(WasmMsg::Execute { contract_addr, msg, funds }) if funds.is_empty() => {
             match from_json::<Cw20ExecuteMsg>(msg) {
                 Ok(Cw20ExecuteMsg::Transfer { recipient, amount }) => {
-                    format!("{}/{}/cw20:{}/{}/{}{}", recipient, amount, contract_addr, gas, m.id, on)
+                    format!("{}/{}/cw20:{}/{}{}", recipient, amount, contract_addr, gas, on)
                 }
                 _ => "wasm?".to_string(),
             }
